@@ -485,7 +485,10 @@ type Clause struct {
 	HasUses bool
 	Uses    []string
 	Callee  string // atcall: callee key, optionally with "#n"
+	After   string // loopinv ... after "loop key": only for loops that start after that loop in the source
 }
+
+var afterRe = regexp.MustCompile(`^(\w+)\s+after\s+"([^"]*)":`)
 
 var usesRe = regexp.MustCompile(`^(\w+)\s+uses\s*([\w,\s]*):\s`)
 
@@ -525,6 +528,7 @@ type Contract struct {
 	Requires []*Clause
 	Ensures  []*Clause
 	AtCalls  []*Clause // site obligations: atcall "callee#n" label: cond
+	AtLines  []*Clause // checkpoint obligations: atline "source text" label: cond (before the first instruction of that line)
 	Reveal   []string  // opaque axioms available when verifying this function
 	AtReturn []*Clause // like ensures, but the function's locals are in scope; checked at returns, never assumed by callers
 	Lets     []struct {
@@ -733,12 +737,17 @@ func parseSpecFile(src, prefix, file string, assumed bool) (*SpecFile, error) {
 			if cur == nil {
 				return nil, fail(fmt.Errorf("loopinv outside contract"))
 			}
+			after := ""
+			if m := afterRe.FindStringSubmatch(rest); m != nil {
+				after = m[2]
+				rest = m[1] + ":" + rest[len(m[0]):]
+			}
 			label, hasUses, uses, rest := splitLabel(rest)
 			e, err := parseExpr(rest)
 			if err != nil {
 				return nil, fail(err)
 			}
-			cur.LoopInvs = append(cur.LoopInvs, &Clause{Kind: "invariant", Tags: tags, Src: rest, E: e, Name: label, Line: ll.L, HasUses: hasUses, Uses: uses})
+			cur.LoopInvs = append(cur.LoopInvs, &Clause{Kind: "invariant", Tags: tags, Src: rest, E: e, Name: label, Line: ll.L, HasUses: hasUses, Uses: uses, After: after})
 			curLoop = nil
 		case "requires", "ensures", "atreturn", "invariant", "decreases":
 			if cur == nil {
@@ -803,6 +812,22 @@ func parseSpecFile(src, prefix, file string, assumed bool) (*SpecFile, error) {
 				return nil, fail(fmt.Errorf("pure outside contract"))
 			}
 			cur.HasMod = true
+		case "atline":
+			// atline[tags] "text of the source line" label: cond
+			if cur == nil || !strings.HasPrefix(rest, "\"") {
+				return nil, fail(fmt.Errorf("atline \"text\" label: cond (inside a contract)"))
+			}
+			end := strings.Index(rest[1:], "\"")
+			if end < 0 {
+				return nil, fail(fmt.Errorf("atline: unterminated text"))
+			}
+			anchor := rest[1 : 1+end]
+			label, hasUses, uses, body := splitLabel(strings.TrimSpace(rest[end+2:]))
+			e, err := parseExpr(body)
+			if err != nil {
+				return nil, fail(err)
+			}
+			cur.AtLines = append(cur.AtLines, &Clause{Kind: "atline", Tags: tags, Src: body, E: e, Name: label, Line: ll.L, HasUses: hasUses, Uses: uses, Callee: anchor})
 		case "atcall":
 			// atcall[tags] "callee#n" label: cond
 			if cur == nil || !strings.HasPrefix(rest, "\"") {
